@@ -278,6 +278,22 @@ func execute(s *engine.Script, o *engine.Outcome) {
 						rel = "less"
 					}
 					o.Violate("C03/extent/"+ad.Name+"/consumed-"+rel+"-than-extent/rejected-alone-"+where, "op %d %s: structure extent is %d bytes (rejected when given alone); followed by %d more bytes it is accepted and the parser consumed %d", i, ad.Name, len(fr.w), len(x), consumed)
+				} else {
+					// the parser itself says the structure is exactly w (it consumed
+					// len(w) and handed the rest back), yet it refuses w when nothing
+					// follows: the outcome for w changes when bytes are appended to it
+					cls := "C03/complete-structure-rejected-unless-more-bytes-follow/" + ad.Name
+					// two specific, recorded corners: fixed minimum sizes computed for
+					// Ed25519 identities, which a structure with a DSA-SHA1 identity
+					// (40-byte signature) undercuts
+					if ad.Name == "ReadLeaseSet2" && len(fr.w) < 499 {
+						cls += "/shorter-than-the-parsers-fixed-minimum-of-499-bytes"
+					}
+					if ad.Name == "ReadMetaLeaseSet" && len(fr.w) < 505 {
+						cls += "/shorter-than-the-parsers-fixed-minimum-of-505-bytes"
+					}
+					o.Violate(cls, "op %d %s: the %d bytes of the structure alone are rejected; followed by %d more bytes the parser accepts, consumes exactly those %d bytes and returns the rest", i, ad.Name, len(fr.w), len(x), len(fr.w))
+					o.Notes[fmt.Sprintf("frame%d_hex", i)] = fmt.Sprintf("%x", fr.w)
 				}
 			}
 			continue
